@@ -846,15 +846,19 @@ func mutate(t *rapid.T, b []byte) []byte {
 }
 
 func TestC11Garbage(t *testing.T) {
-	rec := vt.NewRec(t, "C11", "garbage", "decoder input = arbitrary bytes, a mutated valid encoding, or a valid encoding of a different shape, decoded into every destination type between canary words; oracle: no panic out of the codec, canaries intact, bytes of a []byte destination beyond its capacity untouched; non-trivial = input is a mutated/other-shape valid encoding (gets past the first token)")
+	rec := vt.NewRec(t, "C11", "garbage", "decoder input = arbitrary bytes, a mutated valid encoding, a valid encoding with a located length / count / numeric field overwritten by a boundary value (see lengthfields), or a valid encoding of a different shape, decoded into every destination type between canary words; oracle: no panic out of the codec, canaries intact, bytes of a []byte destination beyond its capacity untouched; non-trivial = input is a mutated/other-shape valid encoding (gets past the first token)")
 	rapid.Check(t, func(t *rapid.T) {
 		name := rapid.SampledFrom([]string{"json", "xml", "form", "plain", "protobuf", "thrift"}).Draw(t, "codec")
 		c := mustCodec(t, name)
 		var in []byte
-		cls := rapid.SampledFrom([]string{"random", "mutated", "othershape", "valid-other-codec"}).Draw(t, "inputclass")
+		cls := rapid.SampledFrom([]string{"random", "mutated", "othershape", "valid-other-codec", "lenfield"}).Draw(t, "inputclass")
 		switch cls {
 		case "random":
 			in = vt.Bytes(t, "in", 300)
+		case "lenfield":
+			// structure-aware: a length / count / numeric field of a valid encoding set to a
+			// boundary value (c11len_test.go has the full class with more destinations)
+			in, _ = lenMutate(t, name, validEncoding(t, name))
 		case "mutated":
 			in = mutate(t, validEncoding(t, name))
 		case "othershape":
